@@ -62,6 +62,7 @@ ASSUMPTIONS = [
     "the outer trie is not mutated while its own batch is open (C05 defines such writes to be overwritten)",
     "commit write failures are injected for non-pruning tries only, as the statement says",
     "whether the exception object is re-raised unchanged is not part of the statement and is not judged",
+    "a reference-count table handed to the constructor is kept up to date in place (squash_changes documents this), so a caller may keep it and hand it to the handle it re-opens",
 ]
 
 
